@@ -591,7 +591,13 @@ def run_case(ctx, n):
 # ------------------------------------------------------------------ bombs (parent side)
 def bomb_list(pctx):
     out = [(m, e, 0.5, None, "metabolize") for (m, e) in BOMBS]
-    moderate = "+".join(["([[0]*10**4]*10**4 == [[0]*10**4]*10**4)"] * 210)     # ~0.07 s per term, booleans add up cheaply
+    # ... and on the explicitly chosen math pathway: auto-detection sends text that starts with '[' or '{' to the literal parser
+    out += [(m, e, 0.5, "GLYCOLYSIS", "metabolize") for (m, e) in BOMBS if not m.startswith("pathological")]
+    # ~0.4 s per term inside ONE allow-listed call that cannot be interrupted, ~80 s in all: only a deadline consulted between the terms
+    # brings this back within the bound; the booleans add up cheaply
+    moderate = "+".join(["(max([1000]*10**4, key=factorial) > 0)"] * 200)
+    out.append(("many-moderate-ops", moderate, 0.5, None, "metabolize"))
+    out.append(("many-moderate-ops", "+".join(["(min([999]*10**4, key=factorial) > 0)"] * 120) + " > 0 and " + "*".join(["len([[0]*999]*999)"] * 300) + " > 0", 0.5, "KREBS_CYCLE", "metabolize"))
     # the same long-running expression after calls that the engine rejected up-front / failed / latched on (state across calls)
     for name, prelude in [("after-overlong-input", ["x" * 10001]), ("after-overlong-input-twice", ["1+" * 6000 + "1", " " * 20000]),
                           ("after-failures", ["1/0", "foo", "(1).real"]),
@@ -606,6 +612,29 @@ def bomb_list(pctx):
     for e in ["max([5000]*10000, key=factorial)", "min([4000]*10000, key=factorial)", "max([[0]*10**4]*10**4, key=len)", "max([10**4]*10**4, key=exp)",
               "sum([factorial(5000)]*10**4) > 0", "max([2000]*10000, key=factorial) + max([2001]*10000, key=factorial)"]:
         out.append(("higher-order-key", e, 0.5, None, "metabolize"))
+    # aliasing: a repeated sequence holds the SAME element many times, so its cost to compare / print grows with the nesting depth while
+    # every single level stays short; likewise a long display of moderately large elements compared with its twin in ONE operation
+    x2 = "[[0]*10**4]*10**4"
+    for e in ["[[[0]*10**4]*10**4]*10**4 == [[[0]*10**4]*10**4]*10**4", "[[[1]*10**4]*10**4]*10**4 < [[[1]*10**4]*10**4]*10**4",
+              "(((0,)*10**4,)*10**4,)*10**4 == (((0,)*10**4,)*10**4,)*10**4", "[['a'*10**4]*10**4]*10**4 == [['a'*10**4]*10**4]*10**4",
+              "[[[[0]*10**3]*10**3]*10**3]*10**3 != [[[[0]*10**3]*10**3]*10**3]*10**3", "[[7**30000]*10**4]*10**4 == [[7**30000]*10**4]*10**4",
+              "max([[[0]*10**4]*10**4]*10**4, [[[0]*10**4]*10**4]*10**4) == 0", "len(sorted([[[[0]*10**4]*10**4]*10**4, [[[0]*10**4]*10**4]*10**4]))",
+              "1 if [[[0]*10**4]*10**4]*10**4 >= [[[0]*10**4]*10**4]*10**4 else 2",
+              "[" + ",".join([x2] * 200) + "] == [" + ",".join([x2] * 200) + "]", "(" + ",".join([x2] * 200) + ") <= (" + ",".join([x2] * 200) + ")",
+              "[[[0]*10**4]*10**4]*9999 + [[[0]*10**4]*10**4] == [[[0]*10**4]*10**4]*10**4"]:
+        out.append(("aliased-nesting", e, 0.5, "GLYCOLYSIS", "metabolize"))
+        out.append(("aliased-nesting", e, 0.5, None, "digest_glucose"))
+    for e in ["[[[0]*10**4]*10**4]*10**4", "(((0,)*10**4,)*10**4,)*10**4", "[[0]*10**4]*10**4", "[['ab'*5000]*10**4]*10**4", "[[[[[0]*100]*100]*100]*100]*100",
+              "[" + ",".join([x2] * 500) + "]"]:
+        out.append(("aliased-nesting-printed", e, 0.5, None, "digest_glucose"))
+    # a timeout of zero (or next to nothing) is still a timeout
+    for tau in (0.0, 1e-9, 0.01):
+        out.append(("tiny-timeout", moderate, tau, "GLYCOLYSIS", "metabolize"))
+        out.append(("tiny-timeout", moderate, tau, None, "digest_glucose"))
+    # transient allocations: the operands are small, the would-be result is not
+    for e in ["len('ab'*(7*10**8))", "len((7*10**8)*'ab')", "len([0]*(16*10**7))", "len(('x'*10**4)*(14*10**4))", "len('a'*10**4*(14*10**4))", "'ab'*(7*10**8) == 'a'",
+              "len((1,)*(16*10**7))", "len('abc'*(4*10**8) + 'abc'*(4*10**8))"]:
+        out.append(("transient-allocation", e, 0.5, "GLYCOLYSIS", "metabolize"))
     out.append(("str-of-big-int", "10**5000", 0.5, None, "digest_glucose"))
     out.append(("pow-tower", "9**9**9**9", 0.2, "GLYCOLYSIS", "digest_glucose"))
     out.append(("pow-tower", "1 < 9**9**9**9", 0.5, None, "metabolize"))
